@@ -117,11 +117,12 @@ CLAIMED = {
     },
     "C19": {
         "text": "Lean 4 theorems (Props/C19.lean): one column per field in order, quoting iff keyword, NOT NULL iff not allowed to be empty (for every field list), "
-                "and per dialect the exact sub-range on which the chosen integer type stores both limits (C19_int_fits_*_partial) with proved counterexamples for the "
-                "rest. Correspondence: exhaustive boundary ranges x 4 dialects through Cid.read + SqlFactory, statement parsed back; generated CIDs for columns, "
+                "and per dialect the exact sub-range on which the chosen integer type stores both limits (C19_int_fits_*_partial), beyond the integer types the "
+                "decimal / number column whose precision is the number of digits of the limits (C19_int_fits_decimal, every range up to the dialect's maximal "
+                "precision; since the repair b3fd201), with proved counterexamples for the two remaining gaps. Correspondence: exhaustive boundary ranges x 4 dialects through Cid.read + SqlFactory, statement parsed back; generated CIDs for columns, "
                 "quoting (against keyword lists frozen at the pinned commit), NOT NULL, decimal digits, varchar length.",
         "note": "Trusted: Lean kernel; the capacity table (int/integer = 32 bit, decimal precision <= 38, DB2 31); keyword lists frozen in harness/data. "
-                "Five open known findings (tinyint for negative ranges, ANSI int beyond 32 bit, limit used as decimal precision in three dialects).",
+                "Two open known findings (tinyint for negative ranges, ANSI int beyond 32 bit); the three 'limit used as decimal precision' findings were repaired (b3fd201).",
         "technique": "Lean 4 proof (threshold ladders, omega) + exhaustive boundary enumeration as correspondence",
         "design_ref": "DESIGN.md §6 C19",
     },
